@@ -84,3 +84,27 @@ Example C02_nonvacuous :
   qb_code c 3 8 = 2 (* 0.375/0.25 = 1.5 -> tie to even 2 *) /\
   qb_code c 5 8 = 2 (* 2.5 -> 2 *) /\ qb_code c 7 8 = 4 (* 3.5 -> 4 *).
 Proof. vm_compute. repeat split. Qed.
+
+(* ---- quantized_linear with ANY constant positive scale (Quant/LinearThm.v; the multi-bit formats) ---- *)
+From QV Require Import Quant.LinearThm.
+Theorem C02_qlinear_idempotent_any_positive_scale : forall c alpha x,
+  ql_sign c = false -> 0 <= ql_ub c -> 0 < rnum alpha -> 0 < rden alpha -> 0 < rden x ->
+  ql_val c alpha (ql_val c alpha x) = ql_val c alpha x.
+Proof. exact ql_idempotent. Qed.
+Print Assumptions C02_qlinear_idempotent_any_positive_scale.
+Theorem C02_qlinear_code_of_a_quantized_value_is_its_code : forall c alpha k,
+  0 < rnum alpha -> 0 < rden alpha -> ql_lo c <= k <= ql_hi c ->
+  ql_code c alpha (rmul (rofZ k) (rscale alpha (ql_se c))) = k.
+Proof. exact ql_code_of_value. Qed.
+Print Assumptions C02_qlinear_code_of_a_quantized_value_is_its_code.
+Theorem C02_qlinear_monotone : forall c alpha x y,
+  0 < rnum alpha -> 0 < rden alpha -> 0 < rden x -> 0 < rden y -> 0 <= ql_ub c ->
+  rle x y = true -> ql_code c alpha x <= ql_code c alpha y.
+Proof. exact ql_code_monotone. Qed.
+Print Assumptions C02_qlinear_monotone.
+Theorem C02_qlinear_nearest_inside_range : forall c alpha x, 0 < rnum alpha -> 0 < rden alpha -> 0 < rden x ->
+  let p := rdiv x (rscale alpha (ql_se c)) in
+  rle (rofZ (ql_lo c)) p = true -> rle p (rofZ (ql_hi c)) = true ->
+  2 * Z.abs (ql_code c alpha x * rden p - rnum p) <= rden p.
+Proof. exact ql_code_nearest_inside. Qed.
+Print Assumptions C02_qlinear_nearest_inside_range.
